@@ -7,6 +7,7 @@ Line protocol (one op per line):
   ev <defs> <hexexpr>               -> "V <n>" | "E div0|divov|invalid|fnmacro|other"     (simplecpp `#if` evaluator on the text)
   pp <q> <defs> <undefs> <hexsrc>   (q = four 0/1 flags: Quirks.vaComma, stringSpace, elifEval, pasteBlue; 1101 = the code since 8474bf0)
                                     -> "T <hex of output tokens joined by one space>" | "E <class>" | "X <why>" (outside the fragment)
+  sk <q> <defs> <undefs> <hexsrc>   -> "K <line numbers runC keeps on the skeleton> | <line numbers the directive loop keeps>" | "X .."
   cd <hex userDefines> <undefs> <hex cfg> <hexsrc>   -> same, through the model of createDUI
   spec|specpf <defs> <ast>          -> "<hex printed text> <S v u | U> <class> <V n | E cls>"   specification value, agreement class
                                        ("agree" or the first failing hypothesis of ifeval_eq_spec), model value
@@ -124,6 +125,23 @@ def step (line : String) : String :=
   | ["pp", q, defs, undefs, src] =>
     match parseList defs, parseList undefs, fromHex src with
     | some defs, some undefs, some src => ppOut (runFile (quirks q) defs undefs src)
+    | _, _, _ => "bad-op"
+  | ["sk", q, defs, undefs, src] =>
+    -- the inclusion skeleton of the run: lines kept by the abstract machine runC on it vs lines kept by the directive loop
+    match parseList defs, parseList undefs, fromHex src with
+    | some defs, some undefs, some src =>
+      match initMacros defs undefs with
+      | .error _ => "X init"
+      | .ok ms =>
+        let ls := (splitLines src).map lexLine
+        let st : PState := ⟨ms, [], []⟩
+        match skelLines (quirks q) undefs st 0 ls, keptLines (quirks q) undefs st 0 ls with
+        | .ok sk, .ok k =>
+          let a := match runC [] sk with
+            | some l => " ".intercalate (l.map toString)
+            | none => "none"
+          s!"K {a} | {" ".intercalate (k.map toString)}"
+        | _, _ => "X error"
     | _, _, _ => "bad-op"
   | ["cd", ud, undefs, cfg, src] =>
     match fromHex ud, parseList undefs, fromHex cfg, fromHex src with
